@@ -44,7 +44,7 @@ kf("K1-C02", "P7 literal-line-trailing-blanks", "C02", r"^C02\|rendering-differs
 
 # --------------------------------------------------------------------------- K2: math row trailing comma (P13)
 P13 = "a line comment inside a row of 2D math arguments forces the broken layout, which adds a trailing comma to the row (an extra empty cell); pinned by the repository's own snapshot unit/comment/in-math.typ, so it cannot be repaired without editing the suite"
-ROW = r"dev=math:\w+>Array\[[^\]]*\]:(lc|lc_sp|lc_lc|nl_lc)"
+ROW = r"dev=math:\w+>Array\[[^\]]*\]:(lc|lc_sp|lc_lc|nl_lc|off_lc)"
 kf("K2-C01", "P13 math-row-trailing-comma", "C01", r"^C01\|tree\|(.*&)?" + ROW, "$mat(x,//c1\ny; z, u)$", P13, "tree")
 kf("K2-C02", "P13 math-row-trailing-comma", "C02", r"^C02\|rendering-differs\|(.*&)?" + ROW, PRELUDE + "$mat(x,//c1\ny; z, u)$", P13, "rendering-differs")
 kf("K2-C03", "P13 math-row-trailing-comma", "C03", r"^C03\|not-idempotent\|(.*&)?" + ROW, "$mat(x,//c1\ny; z, u)$", P13 + " - and the second pass moves it", "not-idempotent")
@@ -53,7 +53,7 @@ kf("K2-C13", "P13 math-row-trailing-comma", "C13", r"^C13\|splice-changes-tree\|
 # --------------------------------------------------------------------------- K3: adjacent block comments in math (P16)
 P16 = "two adjacent block comments inside math delimiters get a space between them: whitespace is created between math atoms where the source had none"
 kf("K3-C01", "P16 math-adjacent-comments", "C01", r"^C01\|tree\|(.*&)?dev=math:\w+>MathDelimited\[[^\]]*\]:bc_bc", "$(/*c1*//*c2*/x)$", P16, "tree")
-kf("K3-C03", "P16 math-adjacent-comments", "C03", r"^C03\|not-idempotent\|(.*&)?dev=math:\w+>(MathDelimited|MathFrac|MathAttach|MathRoot)\[[^\]]*\]:(bc_bc|bc|lc|lc_sp|lc_lc|nl_lc|bc_sp)$", "$f(#1//c1\n)$", "a comment inside math delimiters gets its separating space from two places; the second pass adds another space (converges after two passes)", "not-idempotent")
+kf("K3-C03", "P16 math-adjacent-comments", "C03", r"^C03\|not-idempotent\|(.*&)?dev=math:\w+>(MathDelimited|MathFrac|MathAttach|MathRoot)\[[^\]]*\]:(bc_bc|bc|lc|lc_sp|lc_lc|nl_lc|bc_sp|off_lc|off_bc)$", "$f(#1//c1\n)$", "a comment inside math delimiters gets its separating space from two places; the second pass adds another space (converges after two passes)", "not-idempotent")
 kf("K3-C09", "P16 math-adjacent-comments", "C09", r"^C09\|ws-added\|extra=math:\w+:(.*[+⏎_])?/\*c\*/\+/\*c\*/", "$(/*c*//*c*/)$", P16, "ws-added")
 
 # --------------------------------------------------------------------------- K4: line break before a comment in math becomes a space (P17)
@@ -81,20 +81,21 @@ kf("K7-C10", "P1 paren-removal-fuses-literal", "C10", r"^C10\|literal-changed\|(
 # --------------------------------------------------------------------------- K8: convergence classes
 E = "a node that always breaks (code block with two statements or with a comment, an import list at width 0, a table) inside a context where line breaks are suppressed (a line of text, an equation): the first pass emits the hard breaks inside an otherwise flat layout, the second pass then sees a multi-line source and lays the surroundings out differently (converges after two passes)"
 kf("K8a-C03", "E forced-break-under-suppression", "C03", r"^C03\|not-idempotent\|spine=(mixed|math_i|math_b|math_hash|item|heading|strong)/.*(block2_semi|block2_ml|import\w*|table\w*|grid\w*)\|size=", "foo #({a; b},) bar", E, "not-idempotent")
-kf("K8b-C03", "E forced-break-under-suppression", "C03", r"^C03\|not-idempotent\|(.*&)?dev=code:\w+>(CodeBlock|Code)\[[^\]]*\]:(bc|bc_sp|bc_ml|bc_star|bc_bc|nl_bc_nl|lc|lc_sp|lc_lc|nl_lc)", "$#g({a/*c1*/})$", E, "not-idempotent")
+kf("K8b-C03", "E forced-break-under-suppression", "C03", r"^C03\|not-idempotent\|(.*&)?dev=code:\w+>(CodeBlock|Code)\[[^\]]*\]:(bc|bc_sp|bc_ml|bc_star|bc_bc|nl_bc_nl|lc|lc_sp|lc_lc|nl_lc|off_bc|off_lc)", "$#g({a/*c1*/})$", E, "not-idempotent")
 kf("K8c-C03", "E / trivia inside a field access chain", "C03", r"^C03\|not-idempotent\|(.*&)?dev=\w+:\w+>FieldAccess\[", "#a.f({b; c}).\ng(d)", "a line break or comment inside a method chain whose call arguments hold a node that always breaks: " + E, "not-idempotent")
 kf("K8d-C03", "H asymmetric content block edge", "C03", r"^C03\|not-idempotent\|(.*&)?dev=markup:\w+>ContentBlock\[(LeftBracket\^\w+|\w+\^RightBracket)\]", "#[ $ x $]", "a content block with a blank at only one of its inner edges whose content breaks at a narrow width: the first pass keeps the blank as a space because the source is on one line, the second pass sees a multi-line source and turns it into a line break", "not-idempotent")
-kf("K8e-C03", "P12 heading with line comment", "C03", r"^C03\|not-idempotent\|(.*&)?dev=markup:\w+>Heading\[HeadingMarker\^\w+\]:(lc|lc_sp|lc_lc|nl_lc)", "=//c1\nfoo", "a line comment directly after a heading marker gains a space on the second pass", "not-idempotent")
+kf("K8e-C03", "P12 heading with line comment", "C03", r"^C03\|not-idempotent\|(.*&)?dev=markup:\w+>Heading\[HeadingMarker\^\w+\]:(lc|lc_sp|lc_lc|nl_lc|off_lc)", "=//c1\nfoo", "a line comment directly after a heading marker gains a space on the second pass", "not-idempotent")
 kf("K8f-C03", "adjacent comments after a chain operator", "C03", r"^C03\|not-idempotent\|(.*&)?dev=code:\w+>Binary\[\w+\^\w+\]:bc_bc", "#let v = a + b +/*c1*//*c2*/c", "two adjacent block comments after an operator of a broken binary chain are printed tight by the first pass and spaced by the second", "not-idempotent")
-kf("K8h-C03", "E / comment between call parts", "C03", r"^C03\|not-idempotent\|(.*&)?dev=markup:\w+>(FuncCall\[Ident\^LeftParen\]|Args\[RightParen\^LeftBracket\]):(bc|bc_sp|bc_ml|bc_star|bc_bc|sp)", "#a({b; c})/*c1*/[foo]", "a comment (or blank) between the parts of a call whose argument holds a node that always breaks: " + E, "not-idempotent")
-kf("K8i-C03", "comment before ')' of a parenthesised import list", "C03", r"^C03\|not-idempotent\|(.*&)?dev=code:\w+>ModuleImport\[Ident\^RightParen\]:(bc|bc_sp|bc_ml|bc_star|bc_bc)", "#{import \"m.typ\": (b, a/*c1*/)}", "a block comment before the closing parenthesis of an import list inside a code block: the first pass drops the parentheses and keeps the block on one line, the second pass breaks the block", "not-idempotent")
+kf("K8h-C03", "E / comment between call parts", "C03", r"^C03\|not-idempotent\|(.*&)?dev=markup:\w+>(FuncCall\[Ident\^LeftParen\]|Args\[RightParen\^LeftBracket\]):(bc|bc_sp|bc_ml|bc_star|bc_bc|sp|off_bc)", "#a({b; c})/*c1*/[foo]", "a comment (or blank) between the parts of a call whose argument holds a node that always breaks: " + E, "not-idempotent")
+kf("K8i-C03", "comment before ')' of a parenthesised import list", "C03", r"^C03\|not-idempotent\|(.*&)?dev=code:\w+>ModuleImport\[Ident\^RightParen\]:(bc|bc_sp|bc_ml|bc_star|bc_bc|off_bc)", "#{import \"m.typ\": (b, a/*c1*/)}", "a block comment before the closing parenthesis of an import list inside a code block: the first pass drops the parentheses and keeps the block on one line, the second pass breaks the block", "not-idempotent")
+kf("K8j-C03", "directive before an operand that gets optional parentheses", "C03", r"^C03\|not-idempotent\|(.*&)?dev=code:\w+>(ForLoop\[In\^\w+\]|Closure\[Arrow\^\w+\]):(off_bc|off_lc)", "#for p in/* @typstyle off */a { b }", "an '@typstyle off' comment in front of a for-loop iterable or a closure body: at a narrow width the verbatim operand is wrapped in optional parentheses/braces by the first pass and the rest of the statement is laid out differently by the second", "not-idempotent")
 kf("K8g-C03", "table.<newline>header", "C03", r"^C03\|not-idempotent\|(.*&)?dev=code:\w+>FieldAccess\[Dot\^Ident\]", "#(table(columns: 2, table.\nheader(a, b), c, d))", "'table.header' written with a line break after the dot is not recognised as a header row by the first pass (the callee text is compared verbatim), but is by the second", "not-idempotent")
 
 # --------------------------------------------------------------------------- K9: comment inside 'not in'
 kf("K9-C06", "comment inside 'not in'", "C06", r"^C06\|moved-across-word\|(.*&)?dev=code:\w+>Binary\[Not\^In\]", "#a(b not/*c1*/in c)", "a comment between the two words of the 'not in' operator is moved in front of 'not' (across a word, not only across punctuation)", "moved-across-word")
 
 # --------------------------------------------------------------------------- K10: comment at line start gets one extra space (P20)
-kf("K10-C12", "P20 comment-at-line-start-plus-one", "C12", r"^C12\|not-multiple-of-unit\|(.*&)?dev=(math|markup):\S+\]:(nl_lc|lc_lc|nl_bc_nl)", "$(x\n//c1\n)$", "a comment that starts a line inside math delimiters, math arguments or a list item is indented by k*unit + 1: a separator space is emitted after the line break (pinned by the repository's snapshots unit/markup/term-indent.typ and unit/comment/in-math.typ)", "not-multiple-of-unit")
+kf("K10-C12", "P20 comment-at-line-start-plus-one", "C12", r"^C12\|not-multiple-of-unit\|(.*&)?dev=(math|markup):\S+\]:(nl_lc|lc_lc|nl_bc_nl|off_lc)", "$(x\n//c1\n)$", "a comment that starts a line inside math delimiters, math arguments or a list item is indented by k*unit + 1: a separator space is emitted after the line break (pinned by the repository's snapshots unit/markup/term-indent.typ and unit/comment/in-math.typ)", "not-multiple-of-unit")
 
 # --------------------------------------------------------------------------- K12: recursion depth (P11)
 kf("K12-C05", "P11 recursion-depth", "C05", r"^C05\|nesting-beyond-required-depth\|ladder=", "", "the printer recurses over the tree and overflows an 8 MiB stack at nesting depths (between 4 096 and 16 384 levels) at which the parser alone still succeeds; success up to 2 048 levels is a hard condition of the check", None, {"ladder": 1, "depth": 16384})
